@@ -2,6 +2,7 @@ package modules
 
 import (
 	"context"
+	"math"
 	"runtime"
 	"sync/atomic"
 	"time"
@@ -39,9 +40,12 @@ func init() {
 // be run concurrently. The modules system initializes it with GOMAXPROCS.
 // The minimum is 2.
 func SetMaxConcurrentMicroTasks(n int) {
-	if n < 2 {
+	switch {
+	case n < 2:
 		atomic.StoreInt32(microTasksThreshhold, 2)
-	} else {
+	case n > math.MaxInt32:
+		atomic.StoreInt32(microTasksThreshhold, math.MaxInt32)
+	default:
 		atomic.StoreInt32(microTasksThreshhold, int32(n))
 	}
 }
